@@ -204,7 +204,7 @@ Ltac simp_state :=
                   ?sc_workers, ?sc_shared, ?sc_accepted in *;
           cbn [active closed lopen busy clients fdmap pollset queue workers shared conns accepted backlog
                with_conns set_conn with_clients with_busy with_pool with_shared with_accepted with_backlog fo_core
-               set_worker enqueue add_inactive pool_register pool_reject accept] in *).
+               set_worker enqueue add_inactive pool_register pool_reject accept track_served] in *).
 
 (* ---- flags and the tables of a closed / non-pool server ---- *)
 Record Inv1 (s : st) : Prop := {
@@ -250,6 +250,11 @@ Proof.
   intros [A B C D E F]. constructor; simp_state; auto.
   intros Hc. destruct (C Hc) as [e1 e2]. rewrite e1. auto.
 Qed.
+Lemma inv1_track_served s c : Inv1 s -> Inv1 (track_served K c s).
+Proof.
+  intros [A B C D E F]. constructor; simp_state; auto.
+  intros Hc. destruct (C Hc) as [e1 e2]. rewrite e1. destruct (loose K); auto.
+Qed.
 Lemma inv1_busy_none s : Inv1 s -> Inv1 (with_busy s None).
 Proof. intros [A B C D E F]. constructor; simp_state; auto; congruence. Qed.
 Lemma inv1_finish_own s c : Inv1 s -> Inv1 (finish_own K c s).
@@ -286,6 +291,8 @@ Proof.
   intros I H.
   step_cases H.
   all: try (apply inv1_server_close; assumption).
+  all: try (destruct (accept_survives_oserror (fx K)); [assumption|apply inv1_server_close; assumption]).
+  all: try (apply inv1_track_served).
   all: try (apply inv1_finish_own); try (apply inv1_drop).
   all: try (apply inv1_set_conn; assumption); try (apply inv1_serve_on; assumption).
   all: try (apply inv1_set_conn; apply inv1_serve_on; assumption).
@@ -306,6 +313,7 @@ Proof.
     + constructor; simp_state; rewrite ?Ek; auto; rewrite ?Hc; try discriminate.
     + assert (P1 : Inv1 (pool_register c (with_backlog (with_accepted (with_clients (set_conn s c (k_stage (conns s c) Own)) (clients s ++ [c])) (accepted s ++ [c])) l))).
       { constructor; simp_state; rewrite ?Ek; auto; rewrite ?Hc; try discriminate; congruence. }
+      match goal with |- context [if (gone ?k && ?m) then _ else _] => destruct (gone k && m) end; [constructor; simp_state; rewrite ?Ek; auto; rewrite ?Hc; try discriminate; congruence|].
       destruct (has_auth K); [|exact P1]. destruct (abeh (conns s c)); [exact P1| |].
       * constructor; simp_state; rewrite ?Ek; auto; rewrite ?Hc; try discriminate; congruence.
       * constructor; simp_state; rewrite ?Ek; auto; rewrite ?Hc; try discriminate; try congruence; try (intros _; now right).
@@ -319,7 +327,7 @@ Qed.
 
 (* ---- every connection against the tables ---- *)
 Definition tracked : bool :=
-  match kind K with Threaded | OneShot | Pool => true | Forking => fork_parent_keeps (fx K) end.
+  match kind K with Threaded | OneShot => negb (loose K) | Pool => true | Forking => fork_parent_keeps (fx K) end.
 
 Definition conn_ok (cl fm : list cid) (bz : option cid) (bl : list cid) (x : cid) (k : conn) : Prop :=
   hooks k = (if cclosed k then 1 else 0)
@@ -502,6 +510,7 @@ Proof.
       - unfold conn_ok in *.
         destruct (pool_fail_discards (fx K)) eqn:Ed; rewrite ?mem_rm_other by assumption; rewrite mem_app, mem_one, (Hne x) by assumption;
         rewrite orb_false_r; intuition (try congruence; auto). }
+    match goal with |- context [if (gone ?k && ?m) then _ else _] => destruct (gone k && m) end; [exact P2|].
     destruct (has_auth K); [|exact P1]. destruct (abeh (conns s c)); [exact P1|exact P2|].
     split; simp_state; [|exact N']. intros x. specialize (H x). conn_at x c.
     + unfold conn_ok in *. cbn. rewrite mem_app, mem_one, Nat.eqb_refl, orb_true_r, Sc in *.
@@ -543,6 +552,15 @@ Proof.
   apply conn_ok_close. eapply conn_ok_core; [exact Hc|apply H].
 Qed.
 
+Lemma inv2_track_served s c : stg (conns s c) = Own -> Inv2 s -> Inv2 (track_served K c s).
+Proof.
+  intros Hs I. unfold track_served. destruct (loose K) eqn:L; [|eapply inv2_tables; [..|exact I]; reflexivity].
+  assert (T : tracked = false).
+  { unfold tracked, loose in *. destruct (kind K); try discriminate; rewrite L; reflexivity. }
+  destruct I as [H N]. split; [|exact N]. intros x. simp_state. specialize (H x). conn_at x c.
+  - unfold conn_ok in *. rewrite T, mem_rm_same. intuition (try congruence; try discriminate).
+  - apply conn_ok_rm_other; assumption.
+Qed.
 Lemma fin_ok_close k : fin_ok (close_conn k).
 Proof. unfold fin_ok. rewrite close_conn_authd, close_conn_cclosed. intros ->. apply orb_true_r. Qed.
 Lemma fin_ok_unauth k : negb (authd k) = true -> fin_ok k.
@@ -562,6 +580,8 @@ Proof.
             match goal with Hb : _ && is_none (busy _) = true |- _ => apply andb_prop in Hb; tauto end).
   all: try (apply inv2_authing_ends; assumption).
   all: try (apply inv2_authd; assumption).
+  all: try (apply inv2_track_served; [simp_state; rewrite upd_same; assumption|apply inv2_authd; assumption]).
+  all: try (destruct (accept_survives_oserror (fx K)); [assumption|apply inv2_server_close; assumption]).
   all: try (apply inv2_finish_own;
             [simp_state; rewrite ?upd_same, ?serve_on_same, ?served_conn_stg, ?close_conn_stg; cbn; assumption
             |simp_state; rewrite ?upd_same, ?serve_on_same;
@@ -657,7 +677,8 @@ Proof.
     destruct (Nat.eqb x c) eqn:E; [|rewrite orb_false_r; lia].
     apply Nat.eqb_eq in E. subst. rewrite Mf in *. cbn. lia. }
   destruct (kind K); try (eapply inv3_tables; [..|exact H]; reflexivity).
-  - destruct (has_auth K); [|exact P1]. destruct (abeh (conns s c)); [exact P1| |]; (eapply inv3_tables; [..|exact H]; reflexivity).
+  - match goal with |- context [if (gone ?k && ?m) then _ else _] => destruct (gone k && m) end; [eapply inv3_tables; [..|exact H]; reflexivity|].
+    destruct (has_auth K); [|exact P1]. destruct (abeh (conns s c)); [exact P1| |]; (eapply inv3_tables; [..|exact H]; reflexivity).
   - destruct (fork_parent_keeps (fx K)); (eapply inv3_tables; [..|exact H]; reflexivity).
 Qed.
 
@@ -752,7 +773,7 @@ Proof. intros [l H]. eapply inv_reach_by, H. Qed.
 Definition serving (g : stage) : bool := match g with Own | Authing | Pooled => true | _ => false end.
 (* does close() reach the connections being served?  threaded / one-shot: always; pool, forking: by the generated facts *)
 Definition close_reaches : bool :=
-  match kind K with Threaded | OneShot => true | Pool => pool_close_drops (fx K) | Forking => fork_parent_keeps (fx K) end.
+  match kind K with Threaded | OneShot => negb (loose K) | Pool => pool_close_drops (fx K) | Forking => fork_parent_keeps (fx K) end.
 
 Lemma pooled_is_pool s c : Inv s -> stg (conns s c) = Pooled -> kind K = Pool.
 Proof.
@@ -858,8 +879,8 @@ Proof.
   - destruct (authd (conns s c)); cbn [negb].
     + destruct (shut (conns s c)) eqn:Sh; [eauto|]. destruct Hg as [Hg|Hg]; [|discriminate]. rewrite Hg.
       destruct (next_input (inb (conns s c))); try destruct (is_close q); eauto.
-    + destruct (shut (conns s c)) eqn:Sh; [eauto|]. destruct Hg as [Hg|Hg]; [|discriminate]. rewrite Hg.
-      destruct (has_auth K); [destruct (abeh (conns s c))|]; eauto.
+    + destruct (shut (conns s c)) eqn:Sh; [cbn; eauto|]. destruct Hg as [Hg|Hg]; [|discriminate]. rewrite Hg. cbn [orb andb].
+      destruct (abeh (conns s c)); cbn [is_stall]; destruct (has_auth K); eauto.
   - destruct Hg as [-> | ->]; rewrite ?orb_true_r; cbn; eauto.
 Qed.
 
@@ -1135,7 +1156,7 @@ Definition subject (s : st) (e : event) : option cid :=
   | EConnect c _ | ESend c _ | ELeave c _ | EWork c | EPoll c _ => Some c
   | EAccept => hd_error (backlog s)
   | EServe w => match nth_error (workers s) w with Some (Some (c, _)) => Some c | _ => None end
-  | ETake _ | EClose => None
+  | ETake _ | EClose | EAcceptFail => None
   end.
 
 Lemma fo_core_other c s x : x <> c -> conns (fo_core c s) x = conns s x.
@@ -1147,16 +1168,17 @@ Proof. intros N. rewrite drop_eq. destruct (mem c (fdmap s)); [cbn; now rewrite 
 Lemma accept_other c rest s x : x <> c -> conns (accept K c rest s) x = conns s x.
 Proof.
   intros N. unfold accept. destruct (kind K); cbn; rewrite ?upd_other by assumption; try reflexivity.
-  - destruct (has_auth K); [destruct (abeh (conns s c))|]; cbn; rewrite ?upd_other by assumption; reflexivity.
+  - match goal with |- context [if (gone ?k && ?m) then _ else _] => destruct (gone k && m) end; [destruct (pool_fail_discards (fx K)); cbn; rewrite ?upd_other by assumption; reflexivity|].
+    destruct (has_auth K); [destruct (abeh (conns s c))|]; cbn; rewrite ?upd_other by assumption; reflexivity.
   - destruct (fork_parent_keeps (fx K)); cbn; now rewrite upd_other.
 Qed.
 
 (* 1. whatever a client does -- and whatever the server does for it -- leaves every other connection's record untouched
       (the one-shot server is excluded: its worker's last step closes the server) *)
-Theorem noninterference s e s' : kind K <> OneShot -> e <> EClose -> step e s = Some s' ->
+Theorem noninterference s e s' : kind K <> OneShot -> e <> EClose -> e <> EAcceptFail -> step e s = Some s' ->
   forall x, subject s e <> Some x -> conns s' x = conns s x.
 Proof.
-  intros Nk Ne H x Hx.
+  intros Nk Ne Ne2 H x Hx.
   step_cases H; try congruence; cbn [subject] in Hx;
   repeat match goal with E : nth_error _ _ = Some _ |- _ => rewrite E in Hx; clear E | E : backlog _ = _ |- _ => rewrite E in Hx; clear E end;
   cbn in Hx; try (assert (Nx : x <> c) by congruence).
@@ -1183,7 +1205,8 @@ Lemma ep4_accept c rest t x : ep4 (conns (accept K c rest t) x) = ep4 (conns t x
 Proof.
   unfold accept. destruct (kind K); cbn.
   - conn_at x c; reflexivity.
-  - destruct (has_auth K); [destruct (abeh (conns t c))|]; cbn; conn_at x c; reflexivity.
+  - match goal with |- context [if (gone ?k && ?m) then _ else _] => destruct (gone k && m) end; [cbn; conn_at x c; reflexivity|].
+    destruct (has_auth K); [destruct (abeh (conns t c))|]; cbn; conn_at x c; reflexivity.
   - conn_at x c; reflexivity.
   - destruct (fork_parent_keeps (fx K)); cbn; conn_at x c; reflexivity.
 Qed.
@@ -1255,7 +1278,7 @@ Lemma serve_req_tables c v tb q v' tb' r (acc : list reply) :
   (forall o, In o tb -> In (POid o) acc) -> forall o, In o tb' -> In (POid o) (acc ++ [r]).
 Proof.
   intros E H o Ho. rewrite in_app_iff. unfold serve_req in E.
-  destruct q as [|o0|o0|o0|o0| |].
+  destruct q as [|o0|o0|o0|o0| | |]; [| | | | | |inversion E; subst; left; auto|].
   - inversion E; subst. destruct Ho as [<-|Ho]; [right; now left|left; auto].
   - destruct (omem o0 tb && oeqb o0 (owner K c, 0)); inversion E; subst; left; auto.
   - destruct (omem o0 tb && oeqb o0 (owner K c, 0)); inversion E; subst; [|left; auto].
@@ -1270,7 +1293,8 @@ Lemma serve_req_owner c v tb q v' tb' r :
   (forall o, In o tb -> fst o = owner K c) -> (forall o, In o tb' -> fst o = owner K c) /\ (forall o, r = POid o -> fst o = owner K c).
 Proof.
   intros E H. unfold serve_req in E.
-  destruct q as [|o0|o0|o0|o0| |]; [| | | | | |inversion E; subst; split; [assumption|intros o Eo; discriminate]].
+  destruct q as [|o0|o0|o0|o0| | |]; [| | | | | |inversion E; subst; split; [assumption|intros o Eo; discriminate]
+                                       |inversion E; subst; split; [assumption|intros o Eo; discriminate]].
   - inversion E; subst. split; [intros o [<-|Ho]; [reflexivity|auto]|intros o Eo; inversion Eo; reflexivity].
   - destruct (omem o0 tb && oeqb o0 (owner K c, 0)); inversion E; subst; (split; [assumption|intros o Eo; discriminate]).
   - destruct (omem o0 tb && oeqb o0 (owner K c, 0)); inversion E; subst.
@@ -1318,28 +1342,41 @@ Qed.
 Lemma accept_closed c rest s : closed (accept K c rest s) = closed s.
 Proof.
   unfold accept. destruct (kind K); cbn; try reflexivity.
-  - destruct (has_auth K); [destruct (abeh (conns s c))|]; cbn; reflexivity.
+  - match goal with |- context [if (gone ?k && ?m) then _ else _] => destruct (gone k && m) end; [reflexivity|]. destruct (has_auth K); [destruct (abeh (conns s c))|]; cbn; reflexivity.
   - destruct (fork_parent_keeps (fx K)); reflexivity.
 Qed.
 Lemma drop_closed c s : closed (drop c s) = closed s.
 Proof. rewrite drop_eq. destruct (mem c (fdmap s)); reflexivity. Qed.
-Lemma step_closed_same s e s' : kind K <> OneShot -> e <> EClose -> step e s = Some s' -> closed s' = closed s.
+Lemma step_closed_same s e s' : kind K <> OneShot -> e <> EClose -> (e = EAcceptFail -> accept_survives_oserror (fx K) = true) ->
+  step e s = Some s' -> closed s' = closed s.
 Proof.
-  intros Nk Ne H. step_cases H; try congruence; rewrite ?accept_closed, ?drop_closed; simp_state; try reflexivity.
+  intros Nk Ne Nf H. step_cases H; try congruence; rewrite ?accept_closed, ?drop_closed; simp_state; try reflexivity.
+  all: try (specialize (Nf eq_refl); congruence).
   all: try (destruct (kind K); try congruence; simp_state; reflexivity).
   all: try (destruct (pool_fail_discards (fx K)); reflexivity).
 Qed.
-Lemma closed_only_by_close l s : kind K <> OneShot -> reach_by l s -> closed s = true -> In EClose l.
+Lemma closed_only_by_close l s : kind K <> OneShot -> reach_by l s -> closed s = true ->
+  In EClose l \/ (accept_survives_oserror (fx K) = false /\ In EAcceptFail l).
 Proof.
-  intros Nk R. induction R; intros Hc; [discriminate|]. rewrite in_app_iff.
+  intros Nk R. induction R; intros Hc; [discriminate|]. rewrite !in_app_iff.
   assert (D : e = EClose \/ e <> EClose) by (destruct e; try (right; discriminate); left; reflexivity).
-  destruct D as [->|Ne]; [right; now left|left]. apply IHR. rewrite <- (step_closed_same _ _ _ Nk Ne H). exact Hc.
+  destruct D as [->|Ne]; [left; right; now left|].
+  assert (D2 : e = EAcceptFail \/ e <> EAcceptFail) by (destruct e; try (right; discriminate); left; reflexivity).
+  destruct (accept_survives_oserror (fx K)) eqn:Fa.
+  - destruct IHR as [A|[A _]]; [|left; left; exact A|discriminate].
+    rewrite <- (step_closed_same _ _ _ Nk Ne (fun _ => Fa) H). exact Hc.
+  - destruct D2 as [->|Ne2]; [right; split; [reflexivity|right; now left]|].
+    destruct IHR as [A|[_ A]]; [|left; left; exact A|right; split; [reflexivity|left; exact A]].
+    rewrite <- (step_closed_same _ _ _ Nk Ne (fun E => False_ind _ (Ne2 E)) H). exact Hc.
 Qed.
-Theorem accept_stays_enabled l s : kind K <> OneShot -> reach_by l s -> ~ In EClose l -> busy s = None -> backlog s <> [] ->
+Theorem accept_stays_enabled l s : kind K <> OneShot -> reach_by l s -> ~ In EClose l ->
+  (accept_survives_oserror (fx K) = true \/ ~ In EAcceptFail l) -> busy s = None -> backlog s <> [] ->
   exists s', step EAccept s = Some s'.
 Proof.
-  intros Nk R Nc Hb Hq. assert (I : Inv s) by (eapply inv_reach_by; eassumption). destruct I as (I1 & _ & _).
-  assert (Hc : closed s = false). { destruct (closed s) eqn:E; [|reflexivity]. exfalso. apply Nc. eapply closed_only_by_close; eassumption. }
+  intros Nk R Nc Nf Hb Hq. assert (I : Inv s) by (eapply inv_reach_by; eassumption). destruct I as (I1 & _ & _).
+  assert (Hc : closed s = false).
+  { destruct (closed s) eqn:E; [|reflexivity]. exfalso. destruct (closed_only_by_close l s Nk R E) as [A|[A B]]; [auto|].
+    destruct Nf as [Nf|Nf]; [congruence|auto]. }
   pose proof (i_closed _ I1) as A. pose proof (i_lopen _ I1) as B. rewrite Hc in A.
   assert (Ha : active s = true) by (destruct (active s); [reflexivity|discriminate]).
   unfold Server.step. destruct (backlog s); [congruence|]. rewrite B, Ha, Hb. cbn. eauto.
@@ -1426,14 +1463,15 @@ Proof. rewrite drop_eq. destruct (mem c (fdmap t)); reflexivity. Qed.
 Lemma workers_accept c rest t : workers (accept K c rest t) = workers t.
 Proof.
   unfold accept. destruct (kind K); cbn; try reflexivity.
-  - destruct (has_auth K); [destruct (abeh (conns t c))|]; reflexivity.
+  - match goal with |- context [if (gone ?k && ?m) then _ else _] => destruct (gone k && m) end; [reflexivity|]. destruct (has_auth K); [destruct (abeh (conns t c))|]; reflexivity.
   - destruct (fork_parent_keeps (fx K)); reflexivity.
 Qed.
 Lemma no_dead_step s e s' : pool_catches_base (fx K) = true -> no_dead_worker s -> step e s = Some s' -> no_dead_worker s'.
 Proof.
   intros Hf ND H.
   step_cases H; try congruence; unfold no_dead_worker in *; intros w' c';
-  rewrite ?workers_finish_own, ?workers_drop, ?workers_accept, ?sc_workers; cbn [workers set_conn with_backlog with_pool with_busy pool_reject with_clients set_worker enqueue add_inactive];
+  try (destruct (accept_survives_oserror (fx K)));
+  rewrite ?workers_finish_own, ?workers_drop, ?workers_accept, ?sc_workers; cbn [workers set_conn with_backlog with_pool with_busy pool_reject with_clients set_worker enqueue add_inactive track_served];
   rewrite ?so_workers; try apply ND.
   all: cbn [workers set_conn with_conns].
   all: match goal with |- nth_error (set_nth ?w _ _) _ <> _ =>
@@ -1449,6 +1487,86 @@ Proof.
   - eapply no_dead_step; eassumption.
 Qed.
 
+(* ---- a socket-replacing authenticator (TLS) ---- *)
+Theorem close_refuted_wrapping_auth : kind K = Threaded -> has_auth K = true -> auth_replaces K = true ->
+  worker_tracks_served (fx K) = false ->
+  exists s, exec [EConnect 1 AuthOk; EAccept; EWork 1; EClose] (init K) = Some s
+    /\ closed s = true /\ quiescent s
+    /\ stg (conns s 1) = Own /\ shut (conns s 1) = false /\ gone (conns s 1) = false
+    /\ authd (conns s 1) = true /\ hooks (conns s 1) = 0.
+Proof.
+  intros Kp Ha Hr Hf.
+  exists (server_close K (set_conn (with_clients (w_accepted_base 1 AuthOk) []) 1 (k_authd (conns (w_accepted_base 1 AuthOk) 1)))). split.
+  - cbn. unfold accept, server_close, w_accepted_base, w_connected, Server.work, track_served, loose. cbn.
+    repeat (progress (rewrite ?Kp, ?Ha, ?Hr, ?Hf; cbn)). reflexivity.
+  - unfold server_close. cbn. rewrite Kp. cbn. repeat split.
+    intros e He. destruct e; try discriminate He; cbn; rewrite ?Kp; try reflexivity.
+    unfold Server.work. cbn. unfold shut_all, reset_all, upd. cbn. destruct (Nat.eqb c 1); reflexivity.
+Qed.
+
+(* ---- accept() failing with an OS error ---- *)
+Theorem accept_error_refuted : kind K = Threaded -> has_auth K = false -> accept_survives_oserror (fx K) = false ->
+  exists s, exec [EConnect 1 AuthOk; EAccept; EWork 1; EAcceptFail] (init K) = Some s
+    /\ closed s = true /\ active s = false /\ shut (conns s 1) = true /\ authd (conns s 1) = true /\ gone (conns s 1) = false.
+Proof.
+  intros Kp Ha Hf. eexists. split.
+  - cbn. unfold accept, Server.work, track_served, loose. cbn. repeat (progress (rewrite ?Kp, ?Ha, ?Hf; cbn)). reflexivity.
+  - unfold server_close. cbn. rewrite ?Kp. cbn. repeat split.
+Qed.
+
+(* ---- close() racing with an accept in flight ---- *)
+Theorem late_register_harmless s c : accept_rechecks_closed (fx K) = true -> closed s = true ->
+  let s' := late_register K c s in
+  clients s' = clients s /\ closed s' = true /\ shut (conns s' c) = true /\ stg (conns s' c) = Finished
+  /\ forall x, x <> c -> conns s' x = conns s x.
+Proof.
+  intros Hf Hc. cbv zeta. unfold late_register. rewrite Hf, Hc. cbn. rewrite upd_same.
+  split; [reflexivity|]. split; [exact Hc|]. split; [reflexivity|]. split; [reflexivity|].
+  intros x Nx. now rewrite upd_other.
+Qed.
+Theorem accept_close_race_refuted : kind K = Threaded -> accept_rechecks_closed (fx K) = false ->
+  let s0 := server_close K (with_backlog (w_connected 1 AuthOk) []) in       (* the listener handed connection 1 out, then close() ran *)
+  let s := late_register K 1 s0 in
+  closed s = true /\ active s = false /\ clients s = [1] /\ stg (conns s 1) = Own /\ shut (conns s 1) = false.
+Proof.
+  intros Kp Hf. cbv zeta. unfold late_register. rewrite Hf. cbn [andb]. unfold accept, server_close, w_connected. cbn. rewrite Kp. cbn. repeat split.
+Qed.
+
+(* ---- the one-shot server does accept its one connection ---- *)
+Lemma oneinv_reach s : kind K = OneShot -> reach s -> OneInv s /\ Inv s.
+Proof.
+  intros Ko [l R]. induction R.
+  - split; [left; split; reflexivity|apply inv_init].
+  - destruct IHR as [O I]. split; [|eapply inv_step; eassumption]. destruct I as (I1 & I2 & _). eapply one_step; eassumption.
+Qed.
+Theorem oneshot_accepts_first s : kind K = OneShot -> reach s -> accepted s = [] -> closed s = false -> backlog s <> [] ->
+  exists s', step EAccept s = Some s' /\ List.length (accepted s') = 1.
+Proof.
+  intros Ko R Ha Hc Hb. destruct (oneinv_reach s Ko R) as [O (I1 & _ & _)].
+  assert (Bn : busy s = None) by (destruct O as [[_ B]|(c & A & _)]; [exact B|congruence]).
+  pose proof (i_closed _ I1) as A. pose proof (i_lopen _ I1) as B. rewrite Hc in A.
+  assert (Hact : active s = true) by (destruct (active s); [reflexivity|discriminate]).
+  unfold Server.step. destruct (backlog s) as [|c rest]; [congruence|]. rewrite B, Hact, Bn. cbn.
+  eexists. split; [reflexivity|]. unfold accept. rewrite Ko. cbn. rewrite Ha. reflexivity.
+Qed.
+
+(* ---- a worker's failure: what happens to ITS connection (the others: noninterference) ---- *)
+Theorem own_worker_failure s c rest : kind K <> OneShot -> reach s ->
+  stg (conns s c) = Own -> authd (conns s c) = true -> shut (conns s c) = false ->
+  (next_input (inb (conns s c)) = NBad rest \/ next_input (inb (conns s c)) = NKill rest) ->
+  exists s', step (EWork c) s = Some s'
+    /\ stg (conns s' c) = Finished /\ hooks (conns s' c) = 1 /\ shut (conns s' c) = true /\ cclosed (conns s' c) = true
+    /\ clients s' = rm c (clients s) /\ active s' = active s /\ (forall x, x <> c -> conns s' x = conns s x).
+Proof.
+  intros Nk R Hs Ha Hsh Hn. pose proof (inv_reach s R) as (_ & [H2 _] & _). specialize (H2 c).
+  unfold conn_ok in H2. destruct H2 as (Hh & _).
+  assert (E : step (EWork c) s = Some (finish_own K c (set_conn s c (close_conn (k_inb (conns s c) rest))))).
+  { unfold Server.step, Server.work. rewrite Hs, Ha, Hsh. cbn [negb]. destruct Hn as [-> | ->]; reflexivity. }
+  eexists. split; [exact E|]. rewrite finish_own_eq. destruct (kind K) eqn:Ek; try congruence; cbn; rewrite ?upd_same; cbn;
+  rewrite close_conn_hooks, close_conn_cclosed; cbn; rewrite Ha; cbn; rewrite Hh;
+  (destruct (cclosed (conns s c)); cbn; repeat split; try reflexivity; intros x Nx; now rewrite !upd_other by assumption).
+Qed.
+
 End P.
 
 
@@ -1457,7 +1575,8 @@ Definition partial_frame : list byte := [x00; x00; x00; x0a; x00].          (* h
 Definition good_frame : list byte := [x00; x00; x00; x01; x00; x51; x0a].   (* a complete frame with a one-byte payload *)
 Definition w_decomp (b : list byte) : option (list byte) := None.
 Definition w_decode (b : list byte) : option req := if bytes_eqb b [x51] then Some QRoot else None.
-Definition w_pool (f : facts) (au : bool) : cfg := {| kind := Pool; fx := f; has_auth := au; class_svc := true; nworkers := 2; batch := 10 |}.
+Definition w_pool (f : facts) (au : bool) : cfg :=
+  {| kind := Pool; fx := f; has_auth := au; class_svc := true; nworkers := 2; batch := 10; auth_replaces := false |}.
 Definition starve_history : list event :=
   [EConnect 1 AuthOk; EConnect 2 AuthOk; EConnect 3 AuthOk; EAccept; EAccept; EAccept;
    ESend 1 partial_frame; ESend 2 partial_frame; ESend 3 good_frame;
@@ -1477,7 +1596,7 @@ Theorem pool_liveness_refuted f :
   | None => False
   end.
 Proof.
-  destruct f as [f1 f2 f3].
+  destruct f as [f1 f2 f3 f4 f5 f6 f7].
   match goal with |- match ?x with _ => _ end => set (r := x) end.
   vm_compute in r. subst r. cbv beta iota.
   split; [reflexivity|]. split.
@@ -1499,7 +1618,7 @@ Theorem pool_accept_blocked_refuted f :
   | None => False
   end.
 Proof.
-  destruct f as [f1 f2 f3].
+  destruct f as [f1 f2 f3 f4 f5 f6 f7].
   match goal with |- match ?x with _ => _ end => set (r := x) end.
   vm_compute in r. subst r. cbv beta iota.
   split; [reflexivity|]. split; [reflexivity|]. split.
@@ -1520,7 +1639,8 @@ Qed.
 Definition kill_frame : list byte := [x00; x00; x00; x01; x00; x4b; x0a].
 Definition k_decode (b : list byte) : option req := if bytes_eqb b [x51] then Some QRoot else if bytes_eqb b [x4b] then Some QKill else None.
 Definition k_facts (caught : bool) : facts :=
-  {| pool_close_drops := true; pool_fail_discards := true; fork_parent_keeps := false; pool_catches_base := caught |}.
+  {| pool_close_drops := true; pool_fail_discards := true; fork_parent_keeps := false; pool_catches_base := caught;
+     worker_tracks_served := true; accept_survives_oserror := true; accept_rechecks_closed := true |}.
 Definition kill_history : list event :=
   [EConnect 1 AuthOk; EConnect 2 AuthOk; EConnect 3 AuthOk; EAccept; EAccept; EAccept;
    ESend 1 kill_frame; EPoll 1 false; ETake 0; EServe 0; ESend 2 kill_frame; EPoll 2 false; ETake 1; EServe 1;
